@@ -21,11 +21,12 @@ from .. import tsparse
 from ..core import Violation, call
 
 ENTRIES = ['parse_dict', 'parse_text', 'parse_stream', 'construct', 'new_version_changes', 'bundle',
-           'bundle_dict', 'mem_add', 'mem_add_list', 'fs_add', 'fs_add_text', 'fs_read', 'mem_load', 'parse_observable', 'env_add']
+           'bundle_dict', 'mem_add', 'mem_add_list', 'fs_add', 'fs_add_text', 'fs_read', 'mem_load', 'parse_observable', 'env_add', 'late_registered']
 # The error-family clause is stated for parsing and constructing; for store entry points only exceptions that
 # come out of the parse/construct step are judged (innermost library frame outside stix2/datastore), and the
 # failure-atomicity clause is checked for every failing call.
-PARSE_ENTRIES = ('parse_dict', 'parse_text', 'parse_stream', 'construct', 'new_version_changes', 'bundle', 'bundle_dict', 'parse_observable')
+PARSE_ENTRIES = ('parse_dict', 'parse_text', 'parse_stream', 'construct', 'new_version_changes', 'bundle', 'bundle_dict', 'parse_observable',
+                 'late_registered')
 JUNK = {
     'null': [None],
     'number': [0, -1, 1.5, 10 ** 30, 7],
@@ -36,6 +37,13 @@ JUNK = {
     'nested': [{'a': [{'b': None}]}, [[[[]]]], {'extensions': {'x': []}}, {'objects': [{}]}],
     'empty': ['', [], {}, ' ', '\u0000'],
 }
+
+
+def safe_repr(e):
+    try:
+        return repr(e)[:300]
+    except RecursionError:
+        return '<%s: message too deeply nested to print>' % type(e).__name__
 
 
 def kind_of_json(v):
@@ -101,14 +109,57 @@ def dict_sites(j, path=()):
     return out
 
 
+DEEP_LEVELS = [120, 300, 480, 650, 800]
+
+
+def deep_value(var_n, site_n):
+    """A JSON value nested DEEP_LEVELS[..] levels deep (objects, arrays or alternating), built without recursion.
+    All of these depths are decodable by json.loads in this interpreter, so they are inside the property's
+    'any JSON-decodable input'."""
+    levels = DEEP_LEVELS[var_n % len(DEEP_LEVELS)]
+    shape = site_n % 3
+    v = [1, 'leaf', None, {}][site_n // 3 % 4]
+    for n in range(levels):
+        if shape == 0 or (shape == 2 and n % 2):
+            v = {'k': v}
+        else:
+            v = [v]
+    return v, levels
+
+
 def corrupt(j, picks):
-    """Apply wrong-kind replacements.  picks = [(site number, kind name, variant number)].  Returns (copy, description)."""
+    """Apply wrong-kind replacements.  picks = [(site number, kind name, variant number)].  Returns (copy, description).
+    'deep' picks go last: nothing in here walks into a deeply nested value (sites() is recursive)."""
     j = C._copy(j)
     desc = []
+    picks = [p for p in picks if p[1] != 'deep'] + [p for p in picks if p[1] == 'deep'][:1]
     for site_n, kind, var_n in picks:
-        ss = sites(j)
+        ss = sites(j) if kind != 'deep' or not desc or desc[-1]['kind'] != 'deep' else []
         if not ss:
             break
+        if kind == 'deep':
+            val, levels = deep_value(var_n, site_n)
+            if site_n % 5 == 4 and j.get('spec_version') == '2.1' and isinstance(j.get('extensions', {}), dict):
+                # content of an unregistered property extension: kept as given, and id-contributing for some observables
+                key = 'extension-definition--' + C.mkuuid(7, 'c17deep')
+                j.setdefault('extensions', {})[key] = {'extension_type': 'property-extension', 'deep': val}
+                path = ('extensions', key, 'deep')
+                was = '-'
+            elif site_n % 5 < 2:
+                ds = dict_sites(j)
+                dpath = ds[site_n % len(ds)]
+                key = INJECT_KEYS[(site_n // 7 + var_n) % len(INJECT_KEYS)]
+                (get_at(j, dpath) if dpath else j)[key] = val
+                path = dpath + (key,)
+                was = '-'
+            else:
+                path = ss[site_n % len(ss)]
+                was = kind_of_json(get_at(j, path))
+                put(j, path, val)
+            named = [p for p in path if isinstance(p, str)]
+            desc.append(dict(path='.'.join(str(p) for p in path), prop=(named[-1] if named else '?'), depth=len(path), kind='deep',
+                             was=was, levels=levels))
+            continue
         if kind in ('inject', 'remove'):
             ds = dict_sites(j)
             dpath = ds[site_n % len(ds)]
@@ -203,16 +254,17 @@ class C17(Profile):
     wall_cap = {'quick': 1200, 'thorough': 6 * 3600}
     probes = ['corruption_at_depth>=3', 'corruption_in_extension', 'corruption_in_embedded_object', 'stored_file_corrupted',
               'saved_bundle_corrupted', 'stream_input', 'call_raised_library_error', 'call_returned', 'atomicity_checked_store',
-              'atomicity_checked_registry', 'list_add_prefix_checked', 'multi_site_corruption', 'observed_data_member_corrupted', 'two_toplevel_extensions']
+              'atomicity_checked_registry', 'list_add_prefix_checked', 'multi_site_corruption', 'observed_data_member_corrupted', 'two_toplevel_extensions',
+              'deep_nesting_injected', 'type_registered_after_first_parse']
     rule = ('plans: 30-80 calls; each takes a valid object (every SDO/SRO type of both versions, 2.1 SCOs, SCOs with nested extensions, 2.0 '
             'observed-data with members, marking definitions, language-content), applies 1-3 wrong-kind replacements at plan-chosen sites of any '
-            'depth, and delivers it through one of 18 entry points (parse of dict/text/stream, constructor, new_version, revoke, Bundle, '
+            'depth (incl. values nested 120-800 levels), and delivers it through one of 16 entry points (parse of dict/text/stream, constructor, new_version, Bundle, '
             'memory/filesystem add, stored-file corruption read back through FileSystemSource, saved-bundle corruption loaded back, '
             'parse_observable, marking functions, Environment.add). non-trivial = >=1 corrupted call judged AND >=1 store/registry atomicity '
             'comparison after a failing call; distinct = distinct plan digests')
     state_measure = 'distinct (entry point, object type, corrupted property, wrong kind, outcome class) tuples'
     assumptions = ['scope is corruption-as-fault and failure atomicity, not "all JSON values"; whether a *returned* object is fully validated is C02\'s question and is not asserted',
-                   'nesting depth of injected junk is small (no RecursionError hunting beyond depth 4)',
+                   'injected nesting goes up to 800 levels; the band within ~40 levels of the interpreter recursion limit (about 965-1000 here) is not probed (DESIGN 8)',
                    "DataSourceError from the filesystem sink for an already stored (id, modified) is the documented refusal to overwrite, not an escape"]
     components = dict(COMPONENTS_COMMON,
                       real=COMPONENTS_COMMON['real'] + ['stix2.parsing', 'stix2.base', 'stix2.properties', 'stix2.versioning', 'stix2.datastore.memory',
@@ -223,6 +275,8 @@ class C17(Profile):
     def generate(self, rng, index, tier):
         ops = []
         kinds = sorted(JUNK) + ['inject', 'inject', 'remove']
+        if rng.random() < 0.5:
+            kinds = kinds + ['deep']       # deep nesting: in half of the runs, about one pick in twelve
         entries = U.swarm_weights(rng, ENTRIES, keep=0.75, must=('parse_dict',))
         for n in range(rng.randrange(30, 81)):
             src = U.weighted(rng, [('sdo', 6), ('nested', 3), ('sco', 2), ('marking', 1.5)])
@@ -309,8 +363,14 @@ class C17(Profile):
             # raised by store-level processing after / outside the parse-construct step: not what the clause is about
             world.stat('store_level_exception:' + type(out.exc).__name__)
             return
-        raise Violation('error-family', 'C17.escape/%s/%s/%s' % (type(out.exc).__name__, where, self.entry_class(entry)),
-                        dict(entry=entry, type=op['name'], ver=op['ver'], sites=desc, exc=repr(out.exc)[:300]))
+        sig = 'C17.escape/%s/%s/%s' % (type(out.exc).__name__, where, self.entry_class(entry))
+        if isinstance(out.exc, RecursionError) and self.deep_of(desc):
+            # names the verified cause: the interpreter's recursion limit met while walking the injected nesting
+            sig += '/input-nested-%d-levels' % self.deep_of(desc)
+        world.report(Violation('error-family', sig, dict(entry=entry, type=op['name'], ver=op['ver'], sites=desc, exc=safe_repr(out.exc))))
+
+    def deep_of(self, desc):
+        return max([d.get('levels', 0) for d in desc if d['kind'] == 'deep'] or [0])
 
     def entry_class(self, entry):
         if entry.startswith('parse') or entry in ('construct', 'bundle', 'bundle_dict'):
@@ -322,7 +382,7 @@ class C17(Profile):
     def atomic_registry(self, entry):
         diff = self.world.reg.diff()
         # the world's own registrations (x-sim-widget) are part of its baseline
-        own = ('x-sim-widget', self.sw.TL_A, self.sw.TL_B)
+        own = ('x-sim-widget', self.sw.TL_A, self.sw.TL_B) + getattr(self, 'late_names', ())
         diff = [d for d in diff if d[2] not in own]
         self.world.probe('atomicity_checked_registry')
         if diff:
@@ -340,6 +400,13 @@ class C17(Profile):
         ac = op['allow_custom']
         bad, desc = corrupt(base, [tuple(p) for p in op['picks']])
         cp = lambda v: C._copy(v)
+        if any(d['kind'] == 'deep' for d in desc):
+            world.probe('deep_nesting_injected')
+            try:
+                json.loads(json.dumps(bad))
+            except RecursionError:
+                world.stat('deep_not_json_decodable')       # outside 'JSON-decodable input'
+                return
         if entry == 'parse_dict':
             out = call(s.parse, cp(bad), allow_custom=ac)
         elif entry == 'parse_text':
@@ -400,9 +467,13 @@ class C17(Profile):
                 bd = {'type': 'bundle', 'id': C.mkid('bundle', op['n']), 'objects': members}
                 if not v21:
                     bd['spec_version'] = '2.0'
-                bd2, desc2 = corrupt(bd, [tuple(op['picks'][0])]) if op['pos'] == 2 else (bd, [])
+                deep = any(d['kind'] == 'deep' for d in desc)
+                bd2, desc2 = corrupt(bd, [tuple(op['picks'][0])]) if op['pos'] == 2 and not deep else (bd, [])
                 desc = desc + desc2
                 out = call(s.parse, bd2, allow_custom=ac)
+        elif entry == 'late_registered':
+            self.late_registered(op, i)
+            return
         elif entry in ('mem_add', 'mem_add_list', 'env_add'):
             self.store_add(op, entry, base, bad, desc, i)
             return
@@ -420,6 +491,47 @@ class C17(Profile):
         self.judge(op, desc, out, entry)
         if not out.ok:
             self.atomic_registry(entry)
+
+    def late_registered(self, op, i):
+        """History: content of a type is parsed while the type is unknown, THEN the type is registered, then damaged content
+        of it is parsed.  From the registration on, a returned value must be an instance of the registered class (the least
+        that 'a fully validated object' means), never the passed-through dictionary of the time before."""
+        s, world = self.s, self.world
+        from stix2.properties import IntegerProperty, ListProperty, StringProperty
+        v21 = op['ver'] == '2.1'
+        sco = v21 and op['pos'] == 2
+        T = 'x-sim-late-%d' % i
+        base = {'type': T, 'id': C.mkid(T, op['n']), 'name': 'n', 'size': 3, 'tags': ['a', 'b']}
+        if v21:
+            base['spec_version'] = '2.1'
+        if not sco:
+            base.update(created='2017-01-01T00:00:00.000Z', modified='2017-01-01T00:00:00.000Z')
+        first = call(s.parse, C._copy(base), allow_custom=op['gm'], version=op['ver'])
+        world.stat('late:before=' + first.tag)
+        props = [('name', StringProperty(required=True)), ('size', IntegerProperty()), ('tags', ListProperty(StringProperty))]
+        V = s.v21 if v21 else s.v20
+
+        def reg():
+            deco = V.CustomObservable(T, props, ['name']) if sco else V.CustomObject(T, props)
+            return deco(type('Late', (object,), {}))
+        r = call(reg)
+        if not r.ok:
+            world.stat('build_failed')
+            return
+        cls = r.value
+        self.shape0 = world.reg.shape()
+        self.late_names = getattr(self, 'late_names', ()) + (T,)
+        bad, desc = corrupt(base, [tuple(p) for p in op['picks']])
+        if any(d['kind'] == 'deep' for d in desc) or bad.get('type') != T:
+            bad, desc = base, []
+        out = call(s.parse, C._copy(bad), allow_custom=op['allow_custom'], version=op['ver'])
+        world.probe('type_registered_after_first_parse')
+        self.judge(op, desc, out, 'late_registered')
+        if out.ok and not isinstance(out.value, cls):
+            raise Violation('validated-object', 'C17.returned-unvalidated/type-registered-after-an-earlier-parse',
+                            dict(returned=type(out.value).__name__, sites=desc, first_parse=first.tag, version=op['ver'], observable=sco))
+        if not out.ok:
+            self.atomic_registry('late_registered')
 
     # -- stores ---------------------------------------------------------------------
     def keys_in(self, store):
@@ -462,18 +574,16 @@ class C17(Profile):
         if before is None or after is None:
             # the store cannot be listed any more: something undecodable was written
             if after is None and before is not None and not out.ok:
-                raise Violation('failure-atomicity', 'C17.store-unreadable-after/%s/raised' % entry, dict(sites=desc, type=op['name']))
+                sig = 'C17.store-unreadable-after/%s/raised' % entry
+                if self.deep_of(desc):
+                    sig += ':%s/input-nested-%d-levels' % (type(out.exc).__name__, self.deep_of(desc))
+                world.report(Violation('failure-atomicity', sig, dict(sites=desc, type=op['name'], exc=safe_repr(out.exc))))
+                self.reset_store(entry)
+                return
             if after is None and before is not None:
                 # an add that SUCCEEDED with content the source cannot read back is not what the atomicity clause is about
                 self.world.stat('store_unreadable_after_successful_add')
-                if entry.startswith(('mem', 'env')):
-                    self.sw.make_memory()
-                else:
-                    self.sw.disk.raw_listing()
-                    import shutil
-                    shutil.rmtree(self.sw.fsdir, ignore_errors=True)
-                    os.mkdir(self.sw.fsdir)
-                    self.sw.make_fs()
+                self.reset_store(entry)
             return
         world.probe('atomicity_checked_store')
         world.changed()
@@ -495,7 +605,16 @@ class C17(Profile):
             surplus = {k for k in new if k not in allowed_new}
             if surplus:
                 raise Violation('failure-atomicity', 'C17.failed-add-stored-something/%s' % entry,
-                                dict(stored=[SW.kstr(k) for k in sorted(surplus, key=repr)[:3]], sites=desc, exc=repr(out.exc)[:200]))
+                                dict(stored=[SW.kstr(k) for k in sorted(surplus, key=repr)[:3]], sites=desc, exc=safe_repr(out.exc)))
+
+    def reset_store(self, entry):
+        if entry.startswith(('mem', 'env')):
+            self.sw.make_memory()
+        else:
+            import shutil
+            shutil.rmtree(self.sw.fsdir, ignore_errors=True)
+            os.mkdir(self.sw.fsdir)
+            self.sw.make_fs()
 
     def fs_read(self, op, base, i):
         """Store a valid object through the sink, corrupt the stored file, read it back through the source."""
